@@ -18,9 +18,9 @@ import (
 
 // KeyInfo describes one contract key ever seen.
 type KeyInfo struct {
-	Key  string
-	Path string
-	Type reflect.Type
+	Key    string
+	Path   string
+	Type   reflect.Type
 	Stored bool
 }
 
@@ -52,6 +52,8 @@ type Observer struct {
 	LogOps          bool
 	Ops             []Op
 	Shadow          bool // C07 shadow reads
+	TypeConfused    int64
+	foreignSince    map[string]bool // key overwritten by a value of another Go type and not re-read from the trie since
 	Mismatches      []CacheMismatch
 	HitsByType      map[string]int64
 	MissByType      map[string]int64
@@ -60,6 +62,7 @@ type Observer struct {
 	Transfers       []*state.Transfer
 	SignedTransfers []*state.SignedTransfer
 	lastRead        map[string][]byte // key -> bytes at last get in this txn (alias detection)
+	lastSC          map[string]string
 	curTxn          string
 }
 
@@ -136,7 +139,27 @@ func (o *Observer) ObsGet(sc *cstate.StateContext, key datastore.Key, v util.MPT
 	} else {
 		o.MissByType[tn]++
 	}
-	if o.Shadow && cacheHit {
+	// a key whose last STORED value has another Go type (two contracts sharing a key) is a type-confused read: the
+	// decoded result depends on how the caller pre-allocated v, so it cannot be compared with a fresh decode
+	confused := false
+	if ki := o.ByKey[key]; ki != nil && ki.Stored && ki.Type != nil && ki.Type != reflect.TypeOf(v) {
+		confused = true
+		o.TypeConfused++
+	}
+	if o.foreignSince == nil {
+		o.foreignSince = map[string]bool{}
+	}
+	if !cacheHit {
+		o.foreignSince[key+"|"+tn] = false // this type has been re-read from the trie since the foreign insert
+	} else if o.Shadow && o.foreignSince[key] && confused {
+		if again, seen := o.foreignSince[key+"|"+tn]; seen && !again {
+			// re-cached from the trie after the foreign insert: consistent with the trie
+		} else {
+			// the cache still serves a value although the key was since overwritten with a value of another type
+			o.Mismatches = append(o.Mismatches, CacheMismatch{Key: key, Type: tn, TxnHash: th, Kind: "stale-after-foreign-insert", Cache: got})
+		}
+	}
+	if o.Shadow && cacheHit && !confused {
 		// read the same key from the trie into a fresh value of the same dynamic type
 		rt := reflect.TypeOf(v)
 		if rt.Kind() == reflect.Ptr {
@@ -152,11 +175,15 @@ func (o *Observer) ObsGet(sc *cstate.StateContext, key datastore.Key, v util.MPT
 			}
 		}
 	}
-	if o.Shadow {
+	if o.Shadow && !confused {
 		lk := key + "|" + tn // the same key may legitimately be decoded into different Go types
 		if prev, ok := o.lastRead[lk]; ok && !bytes.Equal(prev, got) {
-			o.Mismatches = append(o.Mismatches, CacheMismatch{Key: key, Type: tn, TxnHash: th, Kind: "alias-mutation", Cache: got, Trie: prev})
+			o.Mismatches = append(o.Mismatches, CacheMismatch{Key: key, Type: tn, TxnHash: th, Kind: "alias-mutation", Cache: got, Trie: prev, TrieErr: fmt.Sprintf("cur_hit=%v sc=%p prev_sc=%s", cacheHit, sc, o.lastSC[lk])})
 		}
+		if o.lastSC == nil {
+			o.lastSC = map[string]string{}
+		}
+		o.lastSC[lk] = fmt.Sprintf("%p/hit=%v", sc, cacheHit)
 		o.lastRead[lk] = got
 	}
 	if o.LogOps {
@@ -178,6 +205,17 @@ func (o *Observer) ObsInsert(sc *cstate.StateContext, key datastore.Key, v util.
 	o.mu.Lock()
 	th := txnHash(sc)
 	o.beginIfNew(th)
+	if ki := o.ByKey[key]; ki != nil && ki.Stored && ki.Type != nil && ki.Type != reflect.TypeOf(v) {
+		if o.foreignSince == nil {
+			o.foreignSince = map[string]bool{}
+		}
+		o.foreignSince[key] = true
+		for k := range o.foreignSince {
+			if len(k) > len(key) && k[:len(key)] == key && k[len(key)] == '|' {
+				delete(o.foreignSince, k)
+			}
+		}
+	}
 	o.register(key, v, true)
 	o.InsByType[tn]++
 	o.forget(key)
@@ -224,6 +262,9 @@ func (o *Observer) ResetTxn() (ops []Op, tr []*state.Transfer, st []*state.Signe
 	defer o.mu.Unlock()
 	ops, tr, st = o.Ops, o.Transfers, o.SignedTransfers
 	o.Ops, o.Transfers, o.SignedTransfers = nil, nil, nil
+	// an explicit transaction boundary: two different transactions can carry the same hash (the fee is not hashed)
+	o.lastRead = map[string][]byte{}
+	o.curTxn = ""
 	return
 }
 
